@@ -7,7 +7,7 @@ static const char *tn[] = { "job", "timer", "fd", "signal" };
 #define MAXREG 16
 struct reg {
 	int type, prio, live, deleted, calls, expected, added_iter, seq;
-	int fd, ready, returned_neg; int signo;
+	int fd, ready, returned_neg; int signo, old_signo;
 	qb_loop_timer_handle th; uint64_t expiry;
 	qb_loop_signal_handle sh;
 	int last_call_iter, ready_since;
@@ -122,7 +122,7 @@ static void do_raise(int signo)
 /* one action chosen by the explorer at a callback: the menu holds only what is applicable right now */
 static int act(int self)
 {
-	enum { A_NONE, A_DEL_SELF, A_READD, A_NEWJOB, A_NEWTIMER, A_STALE, A_RAISE1, A_RAISE2, A_STOP, A_NEG, A_DEL_OTHER, A_TOGGLE, A_MOD, A_REPLACE };
+	enum { A_NONE, A_DEL_SELF, A_READD, A_NEWJOB, A_NEWTIMER, A_STALE, A_RAISE1, A_RAISE2, A_STOP, A_NEG, A_DEL_OTHER, A_TOGGLE, A_MOD, A_REPLACE, A_CLOSE_FIRST, A_SIGMOD };
 	struct { int code, arg; } m[64];
 	int n = 0, i, c, ret = 0;
 	if (actions_left <= 0) return 0;
@@ -143,7 +143,9 @@ static int act(int self)
 			m[n].code = A_TOGGLE; m[n++].arg = i;
 			m[n].code = A_MOD; m[n++].arg = i;
 			m[n].code = A_REPLACE; m[n++].arg = i;
+			m[n].code = A_CLOSE_FIRST; m[n++].arg = i;
 		}
+		if (R[i].type == T_SIG && !R[i].deleted) { m[n].code = A_SIGMOD; m[n++].arg = i; }
 	}
 	c = vp_choose(n, "callback action");
 	if (m[c].code == A_NONE) return 0;
@@ -176,6 +178,24 @@ static int act(int self)
 			vp_log("    poll_mod r%d to prio %d = %d", o, np, rc);
 			if (rc != 0) vp_fail("poll_mod of a registered descriptor failed: %d", rc);
 			r->prio = np;
+		} else if (m[c].code == A_SIGMOD) {
+			/* the handler moves to the other signal (rarely used call): handlers that stay on the old signal keep working */
+			int ns = r->signo == SIGUSR1 ? SIGUSR2 : SIGUSR1;
+			int32_t rc = qb_loop_signal_mod(L, (enum qb_loop_priority)r->prio, ns, (void *)(intptr_t)o, sig_cb, r->sh);
+			vp_log("    signal_mod r%d: signal %d -> %d = %d", o, r->signo, ns, rc);
+			if (rc != 0) vp_fail("signal_mod failed: %d", rc);
+			r->old_signo = r->signo; r->signo = ns;
+		} else if (m[c].code == A_CLOSE_FIRST) {
+			/* the application closes the descriptor first and removes the registration afterwards; whatever that call
+			   reports, the old registration is gone with its descriptor, and the number comes back for a new one */
+			int oldfd = r->fd, nid;
+			int32_t rc;
+			close(oldfd);
+			rc = qb_loop_poll_del(L, oldfd);
+			vp_log("    fd r%d (fd %d) closed, then poll_del = %d", o, oldfd, rc);
+			r->deleted = 1; r->fd = -1;
+			nid = add_fd(r->prio, 1);
+			vp_log("    number %d reused by r%d: %s", oldfd, nid, R[nid].fd == oldfd ? "yes" : "no");
 		} else {
 			/* the descriptor is removed, closed, and its number comes back for a new registration */
 			int oldfd = r->fd, nid;
@@ -237,8 +257,11 @@ static int32_t sig_cb(int32_t sig, void *d)
 {
 	int id = (int)(intptr_t)d;
 	enter_cb(id, "signal");
-	if (sig != R[id].signo) vp_fail("signal callback r%d got signal %d, registered for %d", id, sig, R[id].signo);
-	if (R[id].calls > R[id].expected) vp_fail("signal callback r%d ran %d times for %d delivered signals", id, R[id].calls, R[id].expected);
+	/* a delivery queued before signal_mod still carries the number that was delivered */
+	if (sig != R[id].signo && sig != R[id].old_signo) vp_fail("signal callback r%d got signal %d, registered for %d", id, sig, R[id].signo);
+	/* a handler that was moved to another signal gets the deliveries the loop matches to it at dispatch time: which of the
+	   deliveries still in flight at the moment of the move those are is not specified, so its count is not judged */
+	if (!R[id].old_signo && R[id].calls > R[id].expected) vp_fail("signal callback r%d ran %d times for %d delivered signals", id, R[id].calls, R[id].expected);
 	act(id);
 	return 0;
 }
@@ -294,7 +317,7 @@ static void run(void)
 			if (!r->live || r->deleted) continue;
 			if (((r->type == T_JOB && horizon - r->added_iter > 6) || (r->type == T_TIMER && r->ready_since >= 0 && horizon - r->ready_since > 6)) && r->calls == 0)
 				vp_fail("%s r%d (added at iteration %d) never ran in %d iterations", tn[r->type], i, r->added_iter, horizon);
-			if (r->type == T_SIG && r->calls < r->expected && horizon > 8 && actions_left == max_actions)
+			if (r->type == T_SIG && !r->old_signo && r->calls < r->expected && horizon > 8 && actions_left == max_actions)
 				vp_fail("signal handler r%d ran %d times for %d delivered signals", i, r->calls, r->expected);
 		}
 	}
